@@ -208,6 +208,16 @@ class IndexExpander(ReuseTransformer):
         self._components.pop()
         return result
 
+    def variable(self, x):
+        """Apply to variable.
+
+        The result of visiting the expression of a variable depends on the
+        current component and index values, so it cannot be cached by
+        label like ``reuse_variable`` does. The result is a scalar
+        component of the variable: drop the Variable wrapper.
+        """
+        return self.visit(x.ufl_operands[0])
+
     def list_tensor(self, x):
         """Apply to list_tensor."""
         # Pick the right subtensor and subcomponent
